@@ -247,8 +247,8 @@ def main(argv):
 
 TRUSTED_BASE = [
     "Coq 8.16.1 kernel (coqc); vm_compute used for reflection over finite regenerated tables; no native_compute",
-    "translator harness/gen_tables.py (prints the tables it imports from /repo/src; self-checks by parsing its own output back)",
-    "extraction: ExtrOcamlBasic only (bool, option, list, prod, unit, sumbool); N, Z, positive, nat, Q stay Coq datatypes; no Extract Constant",
+    "translators harness/gen_tables.py (prints the tables it imports from /repo/src; self-checks by parsing its own output back), harness/gen_advances.py (font metrics through Pillow), harness/gen_example.py (dumped state of one real RTFDocument)",
+    "extraction: ExtrOcamlBasic only (Extract Inductive bool, option, unit, list, prod, sumbool, sumor; Extract Inlined Constant andb, orb); N, Z, positive, nat, Q stay Coq datatypes; no Extract Constant of ours",
     "OCaml 4.13.1 + ocaml/driver.ml (S-expression reader / report printer)",
     "correspondence harness (Python): generators, spec->rtflite builder, state dumper",
     "modelled, not verified: CPython str/round/int, pydantic coercion, polars row access and null semantics, re (one pattern), Pillow metrics (oracle table per case), binary64 noise at flagged ties",
